@@ -306,4 +306,375 @@ theorem erases_rRangeProof (rd : Rdr) : Erases (rRangeProof rd) decRangeProof :=
 theorem erases_rOutput (rd : Rdr) : Erases (rOutput rd) decOutput :=
   Erases.bind (erases_rOutputId rd) fun _ => Erases.bind (erases_rRangeProof rd) fun _ => erases_pure _
 
+/-! ### `read_multi` -/
+
+theorem readN_multiItem_erase {p : Dec α} {q : Parser α} (h : Erases p q) (sz : Nat) :
+    ∀ (n : Nat) (bs : Bytes),
+      (GV.Dec.readN (multiItem p sz) n bs).toExcept
+        = some (if (readMultiLoop q n bs).1.length ≠ n then .error .count else .ok (readMultiLoop q n bs)) := by
+  intro n
+  induction n with
+  | zero => intro bs; simp [GV.Dec.readN, readMultiLoop, Outcome.toExcept]
+  | succ n ih =>
+    intro bs
+    have hb := h bs
+    simp only [GV.Dec.readN, multiItem, readMultiLoop]
+    cases hp : p bs with
+    | panic s a => rw [hp] at hb; simp [Outcome.toExcept] at hb
+    | err e a =>
+      rw [hp] at hb
+      simp only [Outcome.toExcept, Option.some.injEq] at hb
+      simp only [← hb]
+      simp [Dec.bind, Outcome.toExcept]
+    | ok x r a =>
+      rw [hp] at hb
+      simp only [Outcome.toExcept, Option.some.injEq] at hb
+      simp only [← hb]
+      have ih' := ih r
+      have hle := readMultiLoop_length_le q n r
+      simp only [Dec.bind, toExcept_addAlloc]
+      cases hr : GV.Dec.readN (multiItem p sz) n r with
+      | panic s b => rw [hr] at ih'; simp [Outcome.toExcept] at ih'
+      | err e b =>
+        rw [hr] at ih'
+        simp only [Outcome.toExcept, Option.some.injEq] at ih'
+        by_cases hl : (readMultiLoop q n r).1.length ≠ n
+        · rw [if_pos hl] at ih'
+          simp only [Except.error.injEq] at ih'
+          have : ((x :: (readMultiLoop q n r).1, (readMultiLoop q n r).2) : List α × Bytes).1.length ≠ n + 1 := by
+            simp; omega
+          simp [Outcome.toExcept, Outcome.addAlloc, ih', hl]
+        · rw [if_neg hl] at ih'; simp at ih'
+      | ok xs r' b =>
+        rw [hr] at ih'
+        simp only [Outcome.toExcept, Option.some.injEq] at ih'
+        by_cases hl : (readMultiLoop q n r).1.length ≠ n
+        · rw [if_pos hl] at ih'; simp at ih'
+        · rw [if_neg hl] at ih'
+          simp only [Except.ok.injEq] at ih'
+          have hl' : (readMultiLoop q n r).1.length = n := by omega
+          have hx : xs.length = n := by rw [← ih'] at hl'; exact hl'
+          simp [Outcome.toExcept, Outcome.addAlloc, ← ih', hx]
+
+theorem erases_readMulti {p : Dec α} {q : Parser α} (h : Erases p q) (sz count : Nat) :
+    Erases (readMulti p sz count) (Ser.readMulti q count) := by
+  intro bs
+  unfold readMulti Ser.readMulti
+  by_cases hc : count > MAX_MULTI_COUNT
+  · simp [hc, Outcome.toExcept]
+  · simp only [hc, if_false]
+    exact readN_multiItem_erase h sz count bs
+
+/-! ### sortedness checks, `Inputs`, `TransactionBody` -/
+
+/-- a `Chk` without panic as an `Except` -/
+def chkOf : Except SerErr Unit → Chk
+  | .ok _ => .ok
+  | .error e => .err e
+
+theorem verifySortedP_eq : ∀ (l : List Nat), verifySortedP l = chkOf (verifySortedUnique l)
+  | [] => rfl
+  | [_] => rfl
+  | a :: b :: r => by
+    have ih := verifySortedP_eq (b :: r)
+    unfold verifySortedP at ih ⊢
+    simp only [windows2, sortedLoop, verifySortedUnique, List.getElem?_cons_zero, List.getElem?_cons_succ]
+    by_cases h1 : a > b
+    · simp [h1, chkOf]
+    · by_cases h2 : a = b
+      · simp [h2, chkOf]
+      · simp only [h1, h2, if_false]; exact ih
+
+theorem chkOf_andThen (x y : Except SerErr Unit) :
+    (chkOf x).andThen (chkOf y) = chkOf (match x with | .error e => .error e | .ok _ => y) := by
+  cases x <;> rfl
+
+theorem bodyVerifySortedP_eq (key : Bytes → Nat) (b : TxBody) :
+    bodyVerifySortedP key b = chkOf (b.verifySorted key) := by
+  unfold bodyVerifySortedP TxBody.verifySorted
+  rw [verifySortedP_eq, verifySortedP_eq, verifySortedP_eq, chkOf_andThen, chkOf_andThen]
+  cases verifySortedUnique (b.inputs.keys key) <;> rfl
+
+theorem compactVerifySortedP_eq (key : Bytes → Nat) (b : CompactBlockBody) :
+    compactVerifySortedP key b = chkOf (b.verifySorted key) := by
+  unfold compactVerifySortedP CompactBlockBody.verifySorted
+  rw [verifySortedP_eq, verifySortedP_eq, verifySortedP_eq, chkOf_andThen, chkOf_andThen]
+  cases verifySortedUnique (b.outFull.map fun o => key o.hashBytes) <;> rfl
+
+theorem erases_corrupt (x : Except SerErr Unit) (a : α) :
+    Erases (fun r => (chkOf x).corrupt (.ok a r 0))
+      (fun r => match x with | .error _ => .error .corrupted | .ok _ => .ok (a, r)) := by
+  intro r; cases x <;> rfl
+
+theorem erases_rInputs (rd : Rdr) (ver ni : Nat) : Erases (rInputs rd ver ni) (decInputs ver ni) := by
+  unfold rInputs decInputs
+  by_cases h : ver ≤ 2
+  · simp only [h, if_true]
+    exact Erases.bind (erases_readMulti (erases_rInput rd) _ _) fun l => Erases.charge (erases_pure _) _
+  · simp only [h, if_false]
+    exact Erases.bind (erases_readMulti (erases_rCommitWrapper rd) _ _) fun l => Erases.charge (erases_pure _) _
+
+theorem erases_rTxBody (rd : Rdr) (c : Cfg) : Erases (rTxBody rd c) (decTxBody c) := by
+  unfold rTxBody decTxBody
+  refine Erases.bind erases_rU64 fun ni => Erases.bind erases_rU64 fun no => Erases.bind erases_rU64 fun nk => ?_
+  refine Erases.ite _ (erases_err _) ?_
+  refine Erases.bind (erases_rInputs rd c.ver ni) fun ins => ?_
+  refine Erases.bind (erases_readMulti (erases_rOutput rd) _ _) fun outs => ?_
+  refine Erases.bind (erases_readMulti (erases_rTxKernel rd c) _ _) fun kers => ?_
+  refine Erases.charge ?_ _
+  rw [bodyVerifySortedP_eq]
+  exact erases_corrupt _ _
+
+theorem erases_rCompactBody (rd : Rdr) (c : Cfg) : Erases (rCompactBody rd c) (decCompactBody c) := by
+  unfold rCompactBody decCompactBody
+  refine Erases.bind erases_rU64 fun no => Erases.bind erases_rU64 fun nk => Erases.bind erases_rU64 fun ni => ?_
+  refine Erases.bind (erases_readMulti (erases_rOutput rd) _ _) fun outs => ?_
+  refine Erases.bind (erases_readMulti (erases_rTxKernel rd c) _ _) fun kers => ?_
+  refine Erases.bind (erases_readMulti (erases_rShortId rd) _ _) fun ids => ?_
+  rw [compactVerifySortedP_eq]
+  exact erases_corrupt _ _
+
+/-! ### `Proof`, `ProofOfWork`, `BlockHeader` -/
+
+theorem extractBitsP_eq {bits : Bytes} {s c rf v : Nat} (h : extractBitsP bits s c rf = .ok v) :
+    v = extractBits bits s c rf := by
+  unfold extractBitsP at h
+  unfold extractBits
+  split at h
+  · simp at h
+  · split at h
+    · rename_i hc; simp only [Except.ok.injEq] at h; simp [hc, h]
+    · rename_i hc
+      split at h
+      · simp at h
+      · split at h
+        · simp at h
+        · split at h
+          · simp at h
+          · simp only [Except.ok.injEq] at h
+            rw [← h]; unfold extractBits; simp [hc]
+
+theorem readNumberP_eq {bits : Bytes} {s c v : Nat} (h : readNumberP bits s c = .ok v) :
+    v = readNumber bits s c := by
+  unfold readNumberP at h
+  unfold readNumber
+  by_cases h0 : c = 0
+  · simp only [h0, if_true, Except.ok.injEq] at h ⊢; exact h.symm
+  · simp only [h0, if_false] at h ⊢
+    by_cases hbad : s / 8 + 8 > bits.length ∧ bits.length < 8
+    · simp [hbad] at h
+    · simp only [hbad, if_false] at h
+      generalize hrf : (if s / 8 + 8 > bits.length then bits.length - 8 else s / 8) = rf at h ⊢
+      by_cases hone : s + c ≤ (rf + 8) * 8
+      · simp only [hone, if_true] at h ⊢; exact extractBitsP_eq h
+      · simp only [hone, if_false] at h ⊢
+        by_cases h8 : c < 8
+        · simp [h8] at h
+        · simp only [h8, if_false] at h
+          cases hlo : extractBitsP bits s 8 rf with
+          | error e => simp [hlo] at h
+          | ok lo =>
+            cases hhi : extractBitsP bits (s + 8) (c - 8) (rf + 1) with
+            | error e => simp [hlo, hhi] at h
+            | ok hi =>
+              simp only [hlo, hhi, Except.ok.injEq] at h
+              rw [← h, extractBitsP_eq hlo, extractBitsP_eq hhi]
+
+theorem nonceLoop_eq {bits : Bytes} {eb : Nat} :
+    ∀ (k n : Nat) (vs : List Nat), nonceLoop bits eb k n = .ok vs →
+      vs = (List.range k).map fun i => readNumber bits ((n + i) * eb) eb := by
+  intro k
+  induction k with
+  | zero => intro n vs h; simp only [nonceLoop, Except.ok.injEq] at h; simp [← h]
+  | succ k ih =>
+    intro n vs h
+    simp only [nonceLoop] at h
+    split at h
+    · simp at h
+    · rename_i v hv
+      split at h
+      · simp at h
+      · rename_i ws hws
+        simp only [Except.ok.injEq] at h
+        rw [← h, readNumberP_eq hv, ih (n + 1) ws hws, List.range_succ_eq_map]
+        simp only [List.map_cons, List.map_map, Nat.add_zero]
+        congr 1
+        apply List.map_congr_left
+        intro i _
+        simp only [Function.comp]
+        congr 2
+        omega
+
+theorem erases_proofFromBits (c : Cfg) {eb : Nat} (heb : eb ≤ 63) (hpl : 8 ≤ packLen c.proofSize eb)
+    {bits : Bytes} (hb : bits.length = packLen c.proofSize eb) :
+    Erases (proofFromBits c eb bits) (fun r =>
+      if readNumber bits (c.proofSize * eb) (packLen c.proofSize eb * 8 - c.proofSize * eb) ≠ 0 then .error .corrupted
+      else .ok ({ edgeBits := eb, nonces := (List.range c.proofSize).map fun n => readNumber bits (n * eb) eb }, r)) := by
+  intro r
+  have hm := packLen_mul8 c.proofSize eb
+  obtain ⟨vs, hvs⟩ := nonceLoop_ok (bits := bits) (eb := eb) (by omega) heb c.proofSize 0
+    (by rw [Nat.zero_add, hb]; exact hm)
+  obtain ⟨pad, hpad⟩ := readNumberP_ok (bits := bits) (s := c.proofSize * eb)
+    (c := packLen c.proofSize eb * 8 - c.proofSize * eb) (by omega) (by rw [hb]; omega)
+    (by unfold packLen at hm ⊢; rw [Nat.mul_comm c.proofSize eb]; omega)
+  have e1 := nonceLoop_eq _ _ _ hvs
+  have e2 := readNumberP_eq hpad
+  simp only [Nat.zero_add] at e1
+  unfold proofFromBits
+  simp only [hvs, hpad]
+  rw [if_neg (by omega), ← e2, ← e1]
+  by_cases hp : pad ≠ 0 <;> simp [hp, Outcome.toExcept]
+
+theorem erases_rProof (rd : Rdr) (c : Cfg) (hps : c.proofSize * 8 ≤ ISIZE_MAX) : Erases (rProof rd c) (decProof c) := by
+  intro bs
+  show (Dec.bind (rU8 bs) _).toExcept = some (andThen (readU8 bs) _)
+  have h := erases_rU8 bs
+  cases hp : rU8 bs with
+  | panic s n => rw [hp] at h; simp [Outcome.toExcept] at h
+  | err e n =>
+    rw [hp] at h
+    simp only [Outcome.toExcept, Option.some.injEq] at h
+    rw [← h]; rfl
+  | ok eb r n =>
+    rw [hp] at h
+    simp only [Outcome.toExcept, Option.some.injEq] at h
+    rw [← h]
+    simp only [Dec.bind, andThen_ok, toExcept_addAlloc]
+    by_cases hbad : eb = 0 ∨ eb > 63
+    · simp [hbad, Outcome.toExcept]
+    · simp only [hbad, if_false]
+      unfold Dec.withCapacity
+      rw [if_neg (by omega), toExcept_addAlloc]
+      by_cases hpl : packLen c.proofSize eb < 8
+      · simp [hpl, Outcome.toExcept]
+      · simp only [hpl, if_false]
+        have h2 := erases_rFixed rd (packLen c.proofSize eb) r
+        cases hq : rFixed rd (packLen c.proofSize eb) r with
+        | panic s m => rw [hq] at h2; simp [Outcome.toExcept] at h2
+        | err e m =>
+          rw [hq] at h2
+          simp only [Outcome.toExcept, Option.some.injEq] at h2
+          rw [← h2]; rfl
+        | ok bits r2 m =>
+          rw [hq] at h2
+          simp only [Outcome.toExcept, Option.some.injEq] at h2
+          have hl := (readFixed_ok h2.symm).2
+          rw [← h2]
+          simp only [andThen_ok, toExcept_addAlloc]
+          exact erases_proofFromBits c (by omega) (by omega) hl r2
+
+theorem erases_rProofOfWork (rd : Rdr) (c : Cfg) (hps : c.proofSize * 8 ≤ ISIZE_MAX) :
+    Erases (rProofOfWork rd c) (decProofOfWork c) :=
+  Erases.bind erases_rU64 fun _ => Erases.bind erases_rU32 fun _ => Erases.bind erases_rU64 fun _ =>
+    Erases.bind (erases_rProof rd c hps) fun _ => erases_pure _
+
+theorem erases_rBlockHeader (rd : Rdr) (c : Cfg) (hps : c.proofSize * 8 ≤ ISIZE_MAX) :
+    Erases (rBlockHeader rd c) (decBlockHeader c) := by
+  unfold rBlockHeader decBlockHeader
+  refine Erases.bind erases_rU16 fun _ => Erases.bind erases_rU64 fun _ => Erases.bind erases_rI64 fun ts => ?_
+  refine Erases.bind (erases_rHash rd) fun _ => Erases.bind (erases_rHash rd) fun _ => Erases.bind (erases_rHash rd) fun _ => ?_
+  refine Erases.bind (erases_rHash rd) fun _ => Erases.bind (erases_rHash rd) fun _ => Erases.bind (erases_rBlind rd) fun _ => ?_
+  refine Erases.bind erases_rU64 fun _ => Erases.bind erases_rU64 fun _ => Erases.bind (erases_rProofOfWork rd c hps) fun _ => ?_
+  exact Erases.ite _ (erases_err _) (erases_pure _)
+
+/-! ### from an accepted instrumented read to the plain decoder -/
+
+theorem Erases.ok {p : Dec α} {q : Parser α} (h : Erases p q) {bs : Bytes} {a : α} {r : Bytes} {n : Nat}
+    (hp : p bs = .ok a r n) : q bs = .ok (a, r) := by
+  have := h bs
+  rw [hp] at this
+  simp only [Outcome.toExcept, Option.some.injEq] at this
+  exact this.symm
+
+theorem untrustedChecks_ok {e : Env} {h h' : BlockHeader} {r r' : Bytes} {n : Nat}
+    (hc : untrustedChecks e h r = .ok h' r' n) : h' = h ∧ r' = r := by
+  unfold untrustedChecks at hc
+  simp only at hc
+  cases hx : GV.Cons.untrustedHeaderCheck e.ct e.now e.ftl (e.powOk h) (toHdr h) with
+  | error x => rw [hx] at hc; cases x <;> simp [charge, Outcome.addAlloc] at hc
+  | ok u =>
+    rw [hx] at hc
+    simp only [charge, Outcome.addAlloc, Outcome.ok.injEq] at hc
+    exact ⟨hc.1.symm, hc.2.1.symm⟩
+
+/-- `UntrustedBlockHeader::read` only adds checks: what it accepts, `read_block_header` accepts with the
+same value and the same unread rest -/
+theorem rUntrustedHeader_ok (rd : Rdr) (e : Env) (hps : e.cfg.proofSize * 8 ≤ ISIZE_MAX)
+    {bs : Bytes} {h : BlockHeader} {r : Bytes} {n : Nat} (hr : rUntrustedHeader rd e bs = .ok h r n) :
+    decBlockHeader e.cfg bs = .ok (h, r) := by
+  unfold rUntrustedHeader at hr
+  obtain ⟨h0, r0, n1, n2, h1, h2, _⟩ := bind_ok_inv hr
+  obtain ⟨rfl, rfl⟩ := untrustedChecks_ok h2
+  exact (erases_rBlockHeader rd e.cfg hps).ok h1
+
+theorem corrupt_ok {ch : Chk} {k : Outcome α} {a : α} {r : Bytes} {n : Nat} (h : ch.corrupt k = .ok a r n) :
+    k = .ok a r n := by
+  cases ch <;> simp [Chk.corrupt] at h; exact h
+
+/-- an outcome that, when it is a success, leaves exactly `r` unread -/
+def RestIs (r : Bytes) (o : Outcome α) : Prop := ∀ a r' n, o = .ok a r' n → r' = r
+
+theorem RestIs.ok (a : α) (r : Bytes) (n : Nat) : RestIs r (.ok a r n : Outcome α) := by
+  intro a' r' n' h; simp only [Outcome.ok.injEq] at h; exact h.2.1.symm
+theorem RestIs.err (r : Bytes) (e : SerErr) (n : Nat) : RestIs r (.err e n : Outcome α) := by
+  intro a' r' n' h; simp at h
+theorem RestIs.addAlloc {r : Bytes} {o : Outcome α} (h : RestIs r o) (k : Nat) : RestIs r (o.addAlloc k) := by
+  intro a' r' n' hh
+  cases o with
+  | ok a r0 n0 => simp only [Outcome.addAlloc, Outcome.ok.injEq] at hh; rw [← hh.2.1]; exact h a r0 n0 rfl
+  | err e n0 => simp [Outcome.addAlloc] at hh
+  | panic s n0 => simp [Outcome.addAlloc] at hh
+theorem RestIs.corrupt {r : Bytes} {o : Outcome α} (h : RestIs r o) (ch : Chk) : RestIs r (ch.corrupt o) := by
+  cases ch with
+  | ok => exact h
+  | err e => exact RestIs.err r _ _
+  | panic s => intro a' r' n' hh; simp [Chk.corrupt] at hh
+
+theorem validateReadBody_ok {c : Cfg} {maxW : Nat} {b : TxBody} {r r' : Bytes} {n : Nat}
+    (h : validateReadBody c maxW b r = .ok () r' n) : r' = r := by
+  have key : RestIs r (validateReadBody c maxW b r) := by
+    unfold validateReadBody
+    split
+    · exact RestIs.err _ _ _
+    · simp only [charge]
+      refine RestIs.addAlloc ?_ _
+      split
+      · exact RestIs.err _ _ _
+      · exact RestIs.corrupt (RestIs.addAlloc (RestIs.corrupt (RestIs.ok _ _ _) _) _) _
+  exact key _ _ _ h
+
+/-- `UntrustedBlock::read` only adds checks to `Block::read` -/
+theorem rUntrustedBlock_ok (rd : Rdr) (e : Env) (hps : e.cfg.proofSize * 8 ≤ ISIZE_MAX)
+    {bs : Bytes} {b : Block} {r : Bytes} {n : Nat} (hr : rUntrustedBlock rd e bs = .ok b r n) :
+    decBlock e.cfg bs = .ok (b, r) := by
+  unfold rUntrustedBlock at hr
+  obtain ⟨h0, r0, n1, n2, h1, h2, _⟩ := bind_ok_inv hr
+  obtain ⟨body, r1, n3, n4, h3, h4, _⟩ := bind_ok_inv h2
+  obtain ⟨u, r2, n5, n6, h5, h6, _⟩ := bind_ok_inv h4
+  have hr2 := validateReadBody_ok h5
+  simp only [Outcome.ok.injEq] at h6
+  obtain ⟨rfl, rfl, _⟩ := h6
+  subst hr2
+  have hh := rUntrustedHeader_ok rd e hps h1
+  have hb := (erases_rTxBody rd e.cfg).ok h3
+  unfold decBlock
+  rw [hh, andThen_ok, hb, andThen_ok]
+
+/-- `UntrustedCompactBlock::read` only adds checks to `CompactBlock::read` -/
+theorem rUntrustedCompactBlock_ok (rd : Rdr) (e : Env) (hps : e.cfg.proofSize * 8 ≤ ISIZE_MAX)
+    {bs : Bytes} {b : CompactBlock} {r : Bytes} {n : Nat} (hr : rUntrustedCompactBlock rd e bs = .ok b r n) :
+    decCompactBlock e.cfg bs = .ok (b, r) := by
+  unfold rUntrustedCompactBlock at hr
+  obtain ⟨h0, r0, n1, n2, h1, h2, _⟩ := bind_ok_inv hr
+  obtain ⟨nonce, r1, n3, n4, h3, h4, _⟩ := bind_ok_inv h2
+  obtain ⟨body, r2, n5, n6, h5, h6, _⟩ := bind_ok_inv h4
+  have h7 := corrupt_ok h6
+  simp only [Outcome.ok.injEq] at h7
+  obtain ⟨rfl, rfl, _⟩ := h7
+  have hh := rUntrustedHeader_ok rd e hps h1
+  have hn := erases_rU64.ok h3
+  have hb := (erases_rCompactBody rd e.cfg).ok h5
+  unfold decCompactBlock
+  rw [hh, andThen_ok, hn, andThen_ok, hb, andThen_ok]
+
 end GV.DecSer
